@@ -517,6 +517,23 @@ package jd
 //@   ensures_bounded ret0
 //@   carries C09
 
+//@ contract verifReadPatchKeys
+//@   bounded
+//@   universe a verifPointerDocs(1)
+//@   universe b verifPointerDocs(1)
+//@   requires validNode(a) && validNode(b)
+//@   ensures_bounded ret0
+//@   carries C10
+
+//@ contract verifMergeBags
+//@   bounded
+//@   universe a verifNestedBagNodes()
+//@   universe b verifNestedBagNodes()
+//@   universe options [][]Option{{MERGE}, {SET, MERGE}, {MULTISET, MERGE}}
+//@   requires !specEq(a, b, verifEqualOptions(options))
+//@   ensures_bounded ret0
+//@   carries C11
+
 //@ contract verifReadPatchContext
 //@   bounded
 //@   universe a verifPointerDocs(-1)
